@@ -239,6 +239,13 @@ class SimA(Simulator):
             elif r < 0.38:
                 c, u = rng.choice(conns)
                 ops.append(["sub", c, u])          # the front end re-issues its subscriptions on the open connection
+            elif r < 0.44:
+                # another user logs in on the same open connection: from now on the connection belongs to that user
+                k = rng.randrange(len(conns))
+                c, u = conns[k]
+                u2 = rng.choice([x for x in users if x != u])
+                conns[k] = (c, u2)
+                ops.append(["sub", c, u2])
             elif r < 0.6:
                 c, u = rng.choice(conns)
                 ops.append(["reg", rng.choice(["E1", "E2"]), u])
@@ -255,10 +262,19 @@ class SimA(Simulator):
         ops: list[list] = []
         joined = rng.choice(["a_b_c", "x__y", "p_q_r_s", "host_uod_1"])
         cuts = [i for i, ch in enumerate(joined) if ch == "_"]
+        spelling = None
+        if rng.random() < 0.3:
+            b = rng.choice(["lab pc", "a/b", "x%y", "m&n", "q?r", "t+z", "k#1"])
+            spelling = (b, next(c for c in b if not c.isalnum()))
         for i in range(rng.randint(2, 4)):
             if rng.random() < 0.5:
                 c = rng.choice(cuts)
                 comp, uod = joined[:c], joined[c + 1:]          # different splits of one string at the separator
+            elif spelling is not None:
+                # names that differ only in how a character is spelled: literally, or as the escape an id encoder produces
+                base, ch = spelling
+                comp = base if rng.random() < 0.5 else base.replace(ch, "%%%02X" % ord(ch))
+                uod = rng.choice(["u", "u", "uod 1", "uod%201"])
             else:
                 comp = "".join(rng.choice(NAME_ALPHABET) for _ in range(rng.randint(1, 2)))
                 uod = "".join(rng.choice(NAME_ALPHABET) for _ in range(rng.randint(1, 2)))
@@ -343,7 +359,7 @@ class SimA(Simulator):
         held: Any = None
         run_started_delivered: dict[str, int] = {}
         run_stopped_delivered: dict[str, int] = {}
-        live: dict[str, str] = {}       # conn -> user
+        live: dict[str, set] = {}       # conn -> users that subscribed their dead man's switch on it
         registered: set[tuple[str, str]] = set()
         crash_restart_during: set[str] = set()
         active_run: dict[str, str | None] = {}
@@ -389,7 +405,10 @@ class SimA(Simulator):
                     # C38: two engines with different name pairs never share an id
                     for e2, (c2, u2) in w.engine_names.items():
                         if e2 != e and (c2, u2) != (comp, uod) and w.engine_ids.get(e2) == reply.engine_id:
-                            res.add("C38", "C38.engine_id_collision", "create_engine_id", step,
+                            # the known defect: the names are joined with '_' before they are encoded, so two splits of
+                            # one string collide. Any other collision (different joined strings) is something else
+                            how = "separator" if c2 + "_" + u2 == comp + "_" + uod else "encoding"
+                            res.add("C38", "C38.engine_id_collision", how, step,
                                     f"engines ({c2!r}, {u2!r}) and ({comp!r}, {uod!r}) both received id {reply.engine_id!r}")
                     if reply.engine_id in connected_before:
                         res.add("C38", "C38.connected_engine_id_taken_over", "register", step,
@@ -565,15 +584,19 @@ class SimA(Simulator):
     async def _users(self, w: World, op, live, registered, res: RunResult, step: int) -> None:
         k = op[0]
         ff = w.aggregator.from_frontend
+        def is_live(u):
+            return any(u in us for us in live.values())
         if k == "sub":
-            live[op[1]] = op[2]
+            # subscriptions are additive: a connection on which a second user logs in still carries the dead man's switch
+            # of the first one; it counts as a live connection of both until it closes
+            live.setdefault(op[1], set()).add(op[2])
             topics = [f"dead_man_switch/{op[2]}"]
             if step % 3 == 0:
                 topics = ["x/run_log", f"dead_man_switch/{op[2]}", "x/method"]     # one event may carry several topics
             await ff.user_subscribed_pubsub(op[1], topics)
         elif k == "reg":
             e, u = op[1], op[2]
-            if u not in live.values() or w.engine_ids.get(e) is None:
+            if not is_live(u) or w.engine_ids.get(e) is None:
                 return
             if await ff.register_active_user(w.engine_ids[e], u, u):
                 registered.add((e, u))
@@ -587,15 +610,16 @@ class SimA(Simulator):
             c = op[1]
             if c not in live:
                 return
-            u = live.pop(c)
+            gone = live.pop(c)
             try:
                 await w.publisher.on_disconnect(_Chan(c))
             except Exception as ex:
                 res.add("C37", "C37.disconnect_handler_raised", type(ex).__name__, step, repr(ex))
-            if u not in live.values():
-                for (e, uu) in list(registered):
-                    if uu == u:
-                        registered.discard((e, uu))
+            for u in gone:
+                if not is_live(u):
+                    for (e, uu) in list(registered):
+                        if uu == u:
+                            registered.discard((e, uu))
         # invariant
         for e, engine_id in w.engine_ids.items():
             if engine_id is None:
@@ -603,13 +627,14 @@ class SimA(Simulator):
             ed = w.aggregator.get_registered_engine_data(engine_id)
             if ed is None:
                 continue
-            want = {u for (ee, u) in registered if ee == e and u in live.values()}
+            want = {u for (ee, u) in registered if ee == e and is_live(u)}
             got = set(ed.active_users)
             if got != want:
                 extra, missing = got - want, want - got
                 if extra:
                     res.add("C37", "C37.user_listed_without_live_connection", "active_users", step,
-                            f"unit {e}: active users {sorted(got)}, expected {sorted(want)} (live connections {live})")
+                            f"unit {e}: active users {sorted(got)}, expected {sorted(want)} (live connections "
+                            f"{ {c: sorted(us) for c, us in live.items()} })")
                 if missing:
                     res.add("C37", "C37.registered_live_user_missing", "active_users", step,
                             f"unit {e}: active users {sorted(got)}, expected {sorted(want)} (live connections {live})")
